@@ -4,6 +4,7 @@
 -/
 import Cgp.GatewaySpec
 import Cgp.Props.C03
+import Cgp.Proofs.C02
 namespace Cgp.Props.C01
 open Cgp Cgp.Xdr Cgp.Gateway
 
@@ -403,6 +404,300 @@ theorem validateProof_iff_reachable (w : World) (hreach : Reachable H V w) (dh :
     · exact Or.inr hc
   · intro hv hpos
     exact (validateProof_iff H V w.st dh proof hpos).mpr hv
+
+/-! ### every approval on record was signed (history level) -/
+
+/-! #### helpers: the invariant carried along a history, and the one-step analysis -/
+
+/-- the auth invariant together with "every set recorded in the ghost field is typed" -/
+def AInv (st : State) : Prop := GInv H st ∧ ∀ e ws, st.setAt e = some ws → ws.Typed
+
+theorem AInv_sameAuth (st st' : State) (h : AInv H st) (hs : Cgp.Proofs.C03.SameAuth st' st) : AInv H st' := by
+  obtain ⟨h1, h2, h3, h4⟩ := hs
+  refine ⟨Cgp.Proofs.C03.GInv_congr H st st' h.1 h1 h2 h3 h4, ?_⟩
+  intro e ws hws
+  rw [h4] at hws
+  exact h.2 e ws hws
+
+theorem AInv_rotated (st : State) (ws : WSigners) (now : Nat) (h : AInv H st) (hty : ws.Typed)
+    (hwf : WellFormed ws) (hn : st.epochByHash (signersHash H ws) = none) :
+    AInv H (Cgp.Proofs.C03.rotated H st ws now) := by
+  refine ⟨Cgp.Proofs.C03.GInv_rotated H st ws now h.1 hwf hn, ?_⟩
+  intro e ws' hws
+  simp only [Cgp.Proofs.C03.rotated] at hws
+  split at hws
+  · cases hws; exact hty
+  · exact h.2 e ws' hws
+
+/-- every typed operation preserves the invariant -/
+theorem AInv_step (w : World) (op : Op σ) (hty : op.Typed) (h : AInv H w.st) : AInv H (step H V w op).1.st := by
+  rcases Cgp.Proofs.C03.step_auth H V w op with hs | ⟨auths, ws, proof, bypass, evs, hop, _, hst, hwf, hn⟩
+  · exact AInv_sameAuth H _ _ h hs
+  · subst hop
+    rw [hst]
+    exact AInv_rotated H w.st ws w.now h hty.1 hwf hn
+
+theorem initSets_AInv (now : Nat) (sets : List WSigners) (st st' : State) (evs : List Event)
+    (h : initSets H now sets st = .ok (st', evs)) (hty : ∀ ws ∈ sets, ws.Typed) (hg : AInv H st) :
+    AInv H st' := by
+  induction sets generalizing st evs with
+  | nil =>
+    unfold initSets at h
+    injection h with h
+    injection h with h1 h2
+    subst h1
+    exact hg
+  | cons ws rest ih =>
+    obtain ⟨hwf, hn, evs', hr⟩ := Cgp.Proofs.C03.initSets_cons_ok H now ws rest st st' evs h
+    exact ih _ evs' hr (fun x hx => hty x (List.mem_cons_of_mem _ hx))
+      (AInv_rotated H st ws now hg (hty ws List.mem_cons_self) hwf hn)
+
+theorem initSets_approvals (now : Nat) (sets : List WSigners) (st st' : State) (evs : List Event)
+    (h : initSets H now sets st = .ok (st', evs)) : st'.approvals = st.approvals := by
+  induction sets generalizing st evs with
+  | nil =>
+    unfold initSets at h
+    injection h with h
+    injection h with h1 h2
+    subst h1
+    rfl
+  | cons ws rest ih =>
+    obtain ⟨_, _, evs', hr⟩ := Cgp.Proofs.C03.initSets_cons_ok H now ws rest st st' evs h
+    have h2 := ih (Cgp.Proofs.C03.rotated H st ws now) evs' hr
+    exact h2
+
+theorem AInv_initState (owner operator : Addr) (domain : Bytes) (minDelay retention : Nat) :
+    AInv H (initState owner operator domain minDelay retention) := by
+  refine ⟨Cgp.Proofs.C03.GInv_initState H owner operator domain minDelay retention, ?_⟩
+  intro e ws h
+  simp [initState] at h
+
+theorem constructed_initSets (owner operator : Addr) (domain : Bytes) (minDelay retention : Nat) (sets : List WSigners)
+    (now : Nat) (w0 : World) (hc : constructed H owner operator domain minDelay retention sets now = some w0) :
+    ∃ evs, initSets H now sets (initState owner operator domain minDelay retention) = .ok (w0.st, evs) := by
+  unfold constructed at hc
+  cases hcon : construct H owner operator domain minDelay retention sets now with
+  | error e => rw [hcon] at hc; cases hc
+  | ok r =>
+    obtain ⟨st, evs⟩ := r
+    rw [hcon] at hc
+    dsimp only at hc
+    injection hc with hc
+    subst hc
+    unfold construct at hcon
+    by_cases he : sets.isEmpty = true
+    · rw [if_pos he] at hcon; cases hcon
+    · rw [if_neg he] at hcon
+      exact ⟨evs, hcon⟩
+
+/-- the invariant holds right after a construction with typed sets -/
+theorem AInv_constructed (owner operator : Addr) (domain : Bytes) (minDelay retention : Nat) (sets : List WSigners)
+    (now : Nat) (w0 : World) (hsets : ∀ ws ∈ sets, ws.Typed)
+    (hc : constructed H owner operator domain minDelay retention sets now = some w0) : AInv H w0.st := by
+  obtain ⟨evs, h⟩ := constructed_initSets H owner operator domain minDelay retention sets now w0 hc
+  exact initSets_AInv H now sets _ _ evs h hsets (AInv_initState H owner operator domain minDelay retention)
+
+/-- under the invariant an accepted proof is a valid proof (or a collision is exhibited) -/
+theorem proofValid_of_ok (st : State) (hinv : AInv H st) (dh : Bytes) (proof : Proof σ) (b : Bool)
+    (htyped : proof.weightedSigners.Typed) (h : validateProof H V st dh proof = .ok b) :
+    ProofValid H V st dh proof ∨ Collision H := by
+  obtain ⟨e, he, _, _, _, _⟩ := (validateProof_ok_iff H V st dh proof b).mp h
+  obtain ⟨ws, hws, hh, hwf⟩ := hinv.1.ghost e _ (hinv.1.bwd e _ he)
+  rcases signersHash_binds H ws proof.weightedSigners (hinv.2 e ws hws) htyped hh with heq | hc
+  · subst heq
+    exact Or.inl ((validateProof_iff H V st dh proof hwf.2.2.2.2.2.1).mp ⟨b, h⟩)
+  · exact Or.inr hc
+
+/-- a record `approved h` after the approval loop was there before, or is the hash of a message of the batch -/
+theorem approveLoop_new (ms : List Message) (st : State) (c i h : Bytes)
+    (h1 : (approveLoop H ms st).1.approvals c i = .approved h) :
+    st.approvals c i = .approved h ∨
+    ∃ m, m ∈ ms ∧ m.sourceChain = c ∧ m.messageId = i ∧ messageHash H m = h := by
+  induction ms generalizing st with
+  | nil => exact Or.inl h1
+  | cons m rest ih =>
+    by_cases hk : st.approvals m.sourceChain m.messageId = .notApproved
+    · rw [Cgp.Proofs.C02.approveLoop_fresh H st m rest hk] at h1
+      rcases ih _ h1 with h2 | ⟨m', hm', hr⟩
+      · by_cases hci : c = m.sourceChain ∧ i = m.messageId
+        · simp only [Cgp.Proofs.C02.setApproved, hci, and_self, if_true] at h2
+          injection h2 with h2
+          exact Or.inr ⟨m, List.mem_cons_self, hci.1.symm, hci.2.symm, h2⟩
+        · simp only [Cgp.Proofs.C02.setApproved, hci, if_false] at h2
+          exact Or.inl h2
+      · exact Or.inr ⟨m', List.mem_cons_of_mem _ hm', hr⟩
+    · rw [Cgp.Proofs.C02.approveLoop_known H st m rest hk] at h1
+      rcases ih _ h1 with h2 | ⟨m', hm', hr⟩
+      · exact Or.inl h2
+      · exact Or.inr ⟨m', List.mem_cons_of_mem _ hm', hr⟩
+
+/-- operations other than `approve` never create an `approved` record -/
+theorem step_approved_other (w : World) (op : Op σ) (hna : ∀ ms proof, op ≠ .approve ms proof) (c i h : Bytes)
+    (h1 : (step H V w op).1.st.approvals c i = .approved h) : w.st.approvals c i = .approved h := by
+  rcases Cgp.Proofs.C02.step_adv H V w op c i with ha | ⟨ha, _⟩ | ⟨_, ha⟩
+  · rw [ha]; exact h1
+  · exfalso
+    cases op with
+    | approve ms proof => exact hna ms proof rfl
+    | rotate auths ws proof bypass =>
+      simp only [step] at h1
+      split at h1
+      · rename_i st' evs hr
+        have := Cgp.Proofs.C02.rotateSigners_approvals H V _ _ _ _ _ _ _ _ hr
+        simp only [this] at h1
+        rw [ha] at h1; cases h1
+      · rw [ha] at h1; cases h1
+    | validateMessage auths caller chain id src ph =>
+      simp only [step] at h1
+      split at h1
+      · rename_i st' b evs hr
+        obtain ⟨_, ⟨_, _, hs, _⟩ | ⟨_, _, hs, _⟩⟩ := Cgp.Proofs.C02.validateMessage_ok H _ _ _ _ _ _ _ _ _ _ hr
+        · subst hs
+          simp only at h1
+          split at h1
+          · cases h1
+          · rw [ha] at h1; cases h1
+        · subst hs
+          rw [ha] at h1; cases h1
+      · rw [ha] at h1; cases h1
+    | callContract auths caller chain dest payload =>
+      simp only [step, callContract] at h1
+      split at h1
+      · rename_i hr
+        split at hr
+        · cases hr
+        · cases hr; rw [ha] at h1; cases h1
+      · rw [ha] at h1; cases h1
+    | transferOwnership auths new =>
+      simp only [step, transferOwnership] at h1
+      split at h1
+      · rename_i hr
+        split at hr
+        · cases hr
+        · cases hr; rw [ha] at h1; cases h1
+      · rw [ha] at h1; cases h1
+    | transferOperatorship auths new =>
+      simp only [step, transferOperatorship] at h1
+      split at h1
+      · rename_i hr
+        split at hr
+        · cases hr
+        · cases hr; rw [ha] at h1; cases h1
+      · rw [ha] at h1; cases h1
+    | setTime now =>
+      have : (step H V w (.setTime now)).1.st = w.st := rfl
+      rw [this, ha] at h1; cases h1
+  · rw [ha] at h1; cases h1
+
+/-- **one step**: a record `approved h` present after a typed operation was present before, or the operation was a
+    successful `approve_messages` whose batch contains a message with that key and hash and whose proof was valid -/
+theorem step_approved (w : World) (op : Op σ) (hty : op.Typed) (hinv : AInv H w.st) (c i h : Bytes)
+    (h1 : (step H V w op).1.st.approvals c i = .approved h) :
+    w.st.approvals c i = .approved h ∨
+    (∃ ms proof evs m, op = .approve ms proof ∧ (step H V w op).2 = .ok evs ∧ m ∈ ms ∧
+        m.sourceChain = c ∧ m.messageId = i ∧ messageHash H m = h ∧
+        ProofValid H V w.st (approveDataHash H ms) proof) ∨ Collision H := by
+  by_cases hna : ∀ ms proof, op ≠ .approve ms proof
+  · exact Or.inl (step_approved_other H V w op hna c i h h1)
+  · have hex : ∃ ms proof, op = .approve ms proof := by
+      cases op with
+      | approve ms proof => exact ⟨ms, proof, rfl⟩
+      | _ => exact absurd (fun _ _ hh => by cases hh) hna
+    obtain ⟨ms, proof, rfl⟩ := hex
+    cases ha : approveMessages H V w.st ms proof with
+    | error e =>
+      have : (step H V w (.approve ms proof)).1 = w := by simp only [step, ha]
+      rw [this] at h1
+      exact Or.inl h1
+    | ok r =>
+      obtain ⟨st', evs⟩ := r
+      have hs1 : (step H V w (.approve ms proof)).1.st = st' := by simp only [step, ha]
+      have hs2 : (step H V w (.approve ms proof)).2 = .ok evs := by simp only [step, ha]
+      rw [hs1] at h1
+      have hl := Cgp.Proofs.C02.approveMessages_ok H V _ _ _ _ _ ha
+      have hst : st' = (approveLoop H ms w.st).1 := by rw [hl]
+      have hv : ∃ b, validateProof H V w.st (approveDataHash H ms) proof = .ok b := by
+        unfold approveMessages at ha
+        cases hv : validateProof H V w.st (approveDataHash H ms) proof with
+        | error e => rw [hv] at ha; cases ha
+        | ok b => exact ⟨b, rfl⟩
+      obtain ⟨b, hv⟩ := hv
+      rw [hst] at h1
+      rcases approveLoop_new H ms w.st c i h h1 with h2 | ⟨m, hm, hc, hi, hh⟩
+      · exact Or.inl h2
+      · rcases proofValid_of_ok H V w.st hinv _ proof b hty hv with hp | hcol
+        · exact Or.inr (Or.inl ⟨ms, proof, evs, m, rfl, hs2, hm, hc, hi, hh, hp⟩)
+        · exact Or.inr (Or.inr hcol)
+
+theorem trace_cons (w : World) (op : Op σ) (ops : List (Op σ)) :
+    trace H V w (op :: ops) = (w, op, (step H V w op).2) :: trace H V (step H V w op).1 ops := rfl
+
+/-- the history-level statement from any world satisfying the invariant -/
+theorem run_approved (ops : List (Op σ)) : ∀ (w : World), AInv H w.st → (∀ op ∈ ops, op.Typed) → ∀ (c i h : Bytes),
+    (run H V w ops).1.st.approvals c i = .approved h →
+    w.st.approvals c i = .approved h ∨
+    (∃ wa ms proof evs m, (wa, Op.approve ms proof, Obs.ok evs) ∈ trace H V w ops ∧ m ∈ ms ∧
+        m.sourceChain = c ∧ m.messageId = i ∧ messageHash H m = h ∧
+        ProofValid H V wa.st (approveDataHash H ms) proof)
+    ∨ Collision H := by
+  induction ops with
+  | nil => intro w _ _ c i h hfin; exact Or.inl hfin
+  | cons op ops ih =>
+    intro w hinv hty c i h hfin
+    rw [Cgp.Proofs.C02.run_cons] at hfin
+    have hop : op.Typed := hty op List.mem_cons_self
+    rcases ih (step H V w op).1 (AInv_step H V w op hop hinv) (fun o ho => hty o (List.mem_cons_of_mem _ ho)) c i h hfin with
+      h1 | ⟨wa, ms, proof, evs, m, hmem, hr⟩ | hcol
+    · rcases step_approved H V w op hop hinv c i h h1 with h2 | ⟨ms, proof, evs, m, rfl, hobs, hr⟩ | hcol
+      · exact Or.inl h2
+      · refine Or.inr (Or.inl ⟨w, ms, proof, evs, m, ?_, hr⟩)
+        rw [trace_cons, hobs]
+        exact List.mem_cons_self
+      · exact Or.inr (Or.inr hcol)
+    · refine Or.inr (Or.inl ⟨wa, ms, proof, evs, m, ?_, hr⟩)
+      rw [trace_cons]
+      exact List.mem_cons_of_mem _ hmem
+    · exact Or.inr (Or.inr hcol)
+
+/-- **every approved message in every reachable state was signed**: start from any successful construction with typed
+    initial sets and run ANY history of typed submissions; if afterwards the gateway holds an approval `h` for (chain, id),
+    then somewhere in that history a successful `approve_messages` call carried a message with that chain and id whose
+    message hash is `h`, and its proof was valid in the state it was submitted to (signatures by members of a registered,
+    still-retained set reaching that set's threshold, over the digest binding domain, set, command kind and that very
+    batch) — or a hash collision is exhibited. -/
+theorem approved_was_signed (owner operator : Addr) (domain : Bytes) (minDelay retention : Nat) (sets : List WSigners)
+    (now : Nat) (w0 : World) (hsets : ∀ ws ∈ sets, ws.Typed)
+    (hc : constructed H owner operator domain minDelay retention sets now = some w0)
+    (ops : List (Op σ)) (hty : ∀ op ∈ ops, op.Typed) (c i h : Bytes)
+    (hfin : (run H V w0 ops).1.st.approvals c i = .approved h) :
+    (∃ wa ms proof evs m, (wa, Op.approve ms proof, Obs.ok evs) ∈ trace H V w0 ops ∧ m ∈ ms ∧
+        m.sourceChain = c ∧ m.messageId = i ∧ messageHash H m = h ∧
+        ProofValid H V wa.st (approveDataHash H ms) proof)
+    ∨ Collision H := by
+  have hinv := AInv_constructed H owner operator domain minDelay retention sets now w0 hsets hc
+  obtain ⟨evs0, hi⟩ := constructed_initSets H owner operator domain minDelay retention sets now w0 hc
+  have h0 : w0.st.approvals c i = .notApproved := by
+    rw [initSets_approvals H now sets _ _ evs0 hi]; rfl
+  rcases run_approved H V ops w0 hinv hty c i h hfin with h1 | h1
+  · rw [h0] at h1; cases h1
+  · exact h1
+
+/-- equal message hashes mean equal messages (source chain, id, source address, destination contract, payload hash) —
+    or a hash collision is exhibited; so the signed message of `approved_was_signed` is determined field by field -/
+theorem messageHash_binds (a b : Message) (ha : a.Typed) (hb : b.Typed)
+    (h : messageHash H a = messageHash H b) : a = b ∨ Collision H := by
+  unfold messageHash at h
+  by_cases hx : enc a.toSc = enc b.toSc
+  · exact Or.inl (toSc_injective_message a b (enc_injective _ _ (message_wf a ha) (message_wf b hb) hx))
+  · exact Or.inr ⟨_, _, hx, h⟩
+
+/-- a freshly constructed gateway holds no approvals at all -/
+theorem constructed_no_approvals (owner operator : Addr) (domain : Bytes) (minDelay retention : Nat) (sets : List WSigners)
+    (now : Nat) (w0 : World) (hc : constructed H owner operator domain minDelay retention sets now = some w0) (c i : Bytes) :
+    w0.st.approvals c i = .notApproved := by
+  obtain ⟨evs0, hi⟩ := constructed_initSets H owner operator domain minDelay retention sets now w0 hc
+  rw [initSets_approvals H now sets _ _ evs0 hi]
+  rfl
 
 /-- non-vacuity: a concrete one-signer proof satisfies `SigsOk` -/
 example : SigsOk (fun _ _ (_ : Unit) => true) [] 3 [⟨⟨[1], 5⟩, some ()⟩] := by
